@@ -52,12 +52,16 @@ class SimClock(object):
     def jump(self, dt):         # NTP-like step of the wall clock only
         self.wall += dt
 
-def sim_time():
-    c = CUR.clock; c.reads += 1; CUR.seam('clock'); return c.wall
-def sim_perf_counter():
-    c = CUR.clock; c.reads += 1; CUR.seam('clock'); return c.mono
-def sim_process_time():
-    c = CUR.clock; c.reads += 1; CUR.seam('clock'); return c.cpu
+def _read(i):
+    run = CUR
+    c = run.clock
+    if not run.observing:
+        c.reads += 1
+        run.seam('clock')
+    return (c.wall, c.mono, c.cpu)[i]
+def sim_time(): return _read(0)
+def sim_perf_counter(): return _read(1)
+def sim_process_time(): return _read(2)
 
 
 # ------------------------------------------------------------------------- run context
@@ -88,6 +92,8 @@ class Run(object):
         self.cost_dt = None      # callable n -> simulated seconds per cost call
         self.notes = []
         self.dead = False
+        self.observing = False   # harness is looking: clock reads are not seam crossings
+        self.pre_step = None     # harness hook: called by the _Step wrapper before each _Step
 
     # every interaction of the system with its environment passes here
     def seam(self, kind):
@@ -229,13 +235,12 @@ class SimCost(object):
     def __call__(self, x, *args):
         run = CUR
         xt = tuple(float(v) for v in x)
-        run.seam('cost')
         y = eval_model(self.spec, xt)
         n = len(run.evals) + 1
-        run.evals.append(EvalRec(n, run.task, run.owner, xt, y))
+        run.evals.append(EvalRec(n, run.task, run.owner, xt, y))   # the call has begun: it counts
         if run.cost_dt is not None:
             run.clock.advance(run.cost_dt(n))
-        run.seam('cost_ret')
+        run.seam('cost')          # yield / fault point inside the call (interrupt, crash, clock jump)
         if isinstance(y, list):
             import numpy
             return numpy.array(y)
@@ -272,6 +277,9 @@ def con_apply(spec, x):
     elif fam == 'push_out':      # hostile: pushes a coordinate beyond the box (C02 only)
         i = p['i']
         x[i] = x[i] + p['by']
+    elif fam == 'push_if':       # hostile but idempotent: beyond a threshold, jump outside the box
+        i = p['i']
+        if x[i] > p['t']: x[i] = p['to']
     elif fam == 'chain':
         for s in p['of']:
             x = con_apply(s, x)
